@@ -15,15 +15,15 @@ Section BlockMapped.
   Variable U : Z.                       (* cells per unit *)
   Variable ss : Z.                      (* bytes per cell *)
   Variable lookup : Z -> res A.         (* unit index -> table entry, Err = the code raises *)
-  Variable emit : A -> Z -> Z -> Z -> list seg.   (* entry, unit idx, cell offset in unit, cell count *)
+  Variable emit : A -> Z -> Z -> Z -> res (list seg).   (* entry, unit idx, cell offset in unit, cell count *)
   Variable gsrc : Z -> src.             (* the specification: source of guest byte o *)
   Notation walk := (walk U lookup emit).
 
   Hypothesis HU : 0 < U.
   Hypothesis Hss : 0 < ss.
-  Hypothesis emit_ok : forall idx a io n,
-    lookup idx = Ok a -> 0 <= idx -> 0 <= io -> 0 < n -> io + n <= U ->
-    srcs_of (emit a idx io n) = map gsrc (zseq ((idx * U + io) * ss) (n * ss)).
+  Hypothesis emit_ok : forall idx a io n segs,
+    lookup idx = Ok a -> emit a idx io n = Ok segs -> 0 <= idx -> 0 <= io -> 0 < n -> io + n <= U ->
+    srcs_of segs = map gsrc (zseq ((idx * U + io) * ss) (n * ss)).
 
   Theorem walk_correct fuel : forall off len p,
     0 <= off -> walk fuel off len = Ok p ->
@@ -41,11 +41,13 @@ Section BlockMapped.
       assert (Hn : 0 < n <= len /\ off mod U + n <= U) by (subst n; lia).
       destruct (lookup (off / U)) as [a| |] eqn:Hlk; try discriminate.
       cbn [bind] in Hrun.
+      destruct (emit a (off / U) (off mod U) n) as [segs| |] eqn:Hem; try discriminate.
+      cbn [bind] in Hrun.
       destruct (walk fuel (off + n) (len - n)) as [rest| |] eqn:Hrest; try discriminate.
       cbn [bind] in Hrun. injection Hrun as <-.
       rewrite srcs_of_app.
       assert (Hidx : 0 <= off / U) by (apply Z.div_pos; lia).
-      rewrite (emit_ok (off / U) a (off mod U) n Hlk Hidx ltac:(lia) ltac:(lia) ltac:(lia)).
+      rewrite (emit_ok (off / U) a (off mod U) n segs Hlk Hem Hidx ltac:(lia) ltac:(lia) ltac:(lia)).
       rewrite (IH (off + n) (len - n) rest ltac:(lia) Hrest).
       replace (off / U * U + off mod U) with off by lia.
       replace (len * ss) with (n * ss + (len - n) * ss) by lia.
@@ -54,6 +56,7 @@ Section BlockMapped.
   Qed.
 
   Hypothesis lookup_not_fuel : forall i, lookup i <> Fuel.
+  Hypothesis emit_not_fuel : forall a i io n, emit a i io n <> Fuel.
 
   Theorem walk_fuel fuel : forall off len,
     0 <= off -> len < Z.of_nat fuel -> walk fuel off len <> Fuel.
@@ -66,13 +69,16 @@ Section BlockMapped.
       assert (Hn : 0 < n <= len) by (subst n; lia).
       pose proof (lookup_not_fuel (off / U)) as Hnf.
       destruct (lookup (off / U)) as [a| |]; cbn [bind]; try discriminate; try congruence.
+      pose proof (emit_not_fuel a (off / U) (off mod U) n) as Hef.
+      destruct (emit a (off / U) (off mod U) n) as [segs| |]; cbn [bind]; try discriminate; try congruence.
       specialize (IH (off + n) (len - n) ltac:(lia) ltac:(lia)).
       destruct (walk fuel (off + n) (len - n)); cbn [bind]; try discriminate. congruence.
   Qed.
 
   (* every unit touched by a request inside [0, total) has an entry *)
   Definition covers (total : Z) : Prop :=
-    forall i, 0 <= i -> i * U < total -> exists a, lookup i = Ok a.
+    forall i, 0 <= i -> i * U < total ->
+      exists a, lookup i = Ok a /\ forall io n, exists segs, emit a i io n = Ok segs.
 
   Theorem walk_ok fuel : forall off len total,
     covers total -> 0 <= off -> off + len <= total -> len < Z.of_nat fuel ->
@@ -86,7 +92,8 @@ Section BlockMapped.
       set (n := Z.min len (U - off mod U)).
       assert (Hn : 0 < n <= len) by (subst n; lia).
       assert (Hidx : 0 <= off / U) by (apply Z.div_pos; lia).
-      destruct (Hcov (off / U) Hidx ltac:(nia)) as [a Ha]. rewrite Ha. cbn [bind].
+      destruct (Hcov (off / U) Hidx ltac:(nia)) as [a [Ha Hem]]. rewrite Ha. cbn [bind].
+      destruct (Hem (off mod U) n) as [segs ->]. cbn [bind].
       destruct (IH (off + n) (len - n) total Hcov ltac:(lia) ltac:(lia) ltac:(lia)) as [rest ->].
       cbn [bind]. eauto.
   Qed.
